@@ -99,6 +99,9 @@ ResultOK ==
       [] op.name = "import"  -> /\ op.raised = ""       \* res = source keys mentioned by a correct mapping
                                 /\ KeySet(op.res) \subseteq (KeySet(op.keys) \cap KeySet(op.src))
                                 /\ ((KeySet(op.keys) \cap KeySet(op.src)) \ mapPrev) \subseteq KeySet(op.res)
+      [] op.name = "clean"   -> \* clean_storage refuses to guess when a stray duplicate belongs to no stored object
+                                \/ op.raised = ""
+                                \/ (op.raised = "InconsistentContent" /\ \E d \in KeySet(O0.dups) : d \notin mapPrev)
       [] OTHER               -> op.raised = ""
 
 C02_Views == IsStep => /\ ViewHas /\ ViewGetBulk /\ ViewGetSingle /\ ViewMeta /\ ViewList /\ ViewCount /\ StoreIsMap
@@ -151,6 +154,11 @@ C11_DeleteExact == (IsStep /\ op.name = "delete") =>
     /\ KeySet(op.res) = KeySet(op.keys) \cap StoreKeys(O0)
     /\ \A r \in Rows(O) : r \in Rows(O0)            \* other rows untouched
     /\ ViewHas /\ ViewGetBulk /\ ViewList
+(* stray duplicate files of the deleted objects go away with them ... *)
+C11_DeleteRemovesDuplicates == (IsStep /\ op.name = "delete") => \A d \in KeySet(O.dups) : d \notin KeySet(op.keys)
+(* ... so that a later clean_storage does not stumble over them *)
+C11_CleanAfterDelete == (IsStep /\ op.name = "clean") =>
+    (op.raised = "" \/ \E d \in KeySet(O0.dups) : d \notin mapPrev)
 C11_RepackCompact == (IsStep /\ op.name = "repack" /\ op.raised = "") => RepackCompact(O)
 
 (* ---- C12 (no false positives) ---- *)
